@@ -4,6 +4,7 @@ import (
 	"context"
 	"errors"
 	"fmt"
+	"github.com/ethereum/go-ethereum/event"
 	"math/big"
 	"time"
 
@@ -128,14 +129,18 @@ func (p *contractPayment) AddAccountBalance(account store.Account, credit *big.I
 }
 
 func (p *contractPayment) SubscribeBalance(ctx context.Context, handler func(account store.Account, amount *big.Int)) error {
-	sink := make(chan *vipnodepool.VipnodePoolBalance, 1)
-	sub, err := p.contract.WatchBalance(&bind.WatchOpts{
-		Context: ctx,
-	}, sink)
+	watch := func() (event.Subscription, chan *vipnodepool.VipnodePoolBalance, error) {
+		sink := make(chan *vipnodepool.VipnodePoolBalance, 1)
+		sub, err := p.contract.WatchBalance(&bind.WatchOpts{
+			Context: ctx,
+		}, sink)
+		return sub, sink, err
+	}
+	sub, sink, err := watch()
 	if err != nil {
 		return err
 	}
-	eventHandler := func() error {
+	eventHandler := func(sub event.Subscription, sink chan *vipnodepool.VipnodePoolBalance) error {
 		for {
 			select {
 			case balanceEvent := <-sink:
@@ -145,6 +150,10 @@ func (p *contractPayment) SubscribeBalance(ctx context.Context, handler func(acc
 				// earlier one.
 				handler(account, balanceEvent.Balance)
 			case err := <-sub.Err():
+				if err == nil {
+					// The channel is closed once the subscription has ended.
+					err = errors.New("subscription ended")
+				}
 				return err
 			case <-ctx.Done():
 				sub.Unsubscribe()
@@ -158,13 +167,21 @@ func (p *contractPayment) SubscribeBalance(ctx context.Context, handler func(acc
 		retryTimeout := time.Minute * 10 // Abort if we fail more often than once in 10min
 		var lastErr time.Time
 		for {
-			err := eventHandler()
-			if err == nil {
+			err := eventHandler(sub, sink)
+			if ctx.Err() != nil {
 				// Clean exit
 				return
 			}
 			logger.Printf("SubscribeBalance event handler loop failed: %s", err)
-			if lastErr.Add(retryTimeout).After(time.Now()) {
+			if !lastErr.IsZero() && lastErr.Add(retryTimeout).After(time.Now()) {
+				break
+			}
+			lastErr = time.Now()
+			// Events were missed while the subscription was down, what is
+			// cached can be stale: start over with a new subscription.
+			p.balanceCache.Reset(0)
+			if sub, sink, err = watch(); err != nil {
+				logger.Printf("SubscribeBalance failed to subscribe again: %s", err)
 				break
 			}
 		}
